@@ -205,6 +205,20 @@ func runC02(c *Ctx) {
 	}
 	rec(nil, exLen)
 	c.Extra["exhaustive"] = fmt.Sprintf("all sequences of length<=%d over %d op templates on content 'ab': %d cases", exLen, len(templates), k)
+	// (1b) a first write of 64 KiB and more (a whole-buffer write is where an implementation is
+	// tempted to keep the caller's slice), then small writes and reads around its ends
+	for bi, n := range []int{65535, 65536, 70000, 131072} {
+		pay := make([]byte, n)
+		for q := range pay {
+			pay[q] = byte('A' + q%23)
+		}
+		for vi, first := range []string{". - HWrite 0 " + hx(pay), ". - HWriteAt 0 " + hx(pay) + " 0"} {
+			items := []string{first, ". - HStat 0", ". - HReadAt 1 16 0", fmt.Sprintf(". - HReadAt 1 16 %d", n-8), ". - HWriteAt 0 7a7a 3", ". - HReadAt 1 8 0",
+				". - HSeek 1 -4 2", ". - HRead 1 16", ". - HTruncate 0 10", ". - HReadAt 1 16 0", ". - HStat 1"}
+			execFcase(c, fmt.Sprintf("b%d_%d", bi, vi), "-", "w,r", items)
+		}
+	}
+	runC02Huge(c)
 	// (2) random: 1-4 handles (rw / ro / closed), <= 40 ops
 	for i := 0; i < nRandom; i++ {
 		c02Big = i%12 == 0
@@ -289,4 +303,40 @@ func runC02(c *Ctx) {
 			}
 		}
 	}
+}
+
+// positional reads at offsets where off+len overflows int64 (oracle only: the byte-array
+// specification indexes with unary naturals).  No allocation is involved in a read, so the call
+// must answer "nothing, an error" without panicking, and must not move the handle.
+func runC02Huge(c *Ctx) {
+	n := 0
+	for _, content := range []string{"", "abcdef"} {
+		for _, off := range []int64{1<<63 - 1, 1<<63 - 4, 1<<63 - 8, 1 << 62, 1 << 40} {
+			for _, blen := range []int{1, 8, 100} {
+				n++
+				fd := mem.CreateFile("f")
+				w := mem.NewFileHandle(fd)
+				w.Write([]byte(content))
+				h := mem.NewFileHandle(fd)
+				h.Seek(2, 0)
+				func() {
+					defer func() {
+						if r := recover(); r != nil {
+							c.Oracle("FAIL huge%d panic:HReadAt ReadAt(%d bytes, %d) on a %d-byte file panicked: %v", n, blen, off, len(content), r)
+						}
+					}()
+					buf := make([]byte, blen)
+					k, err := h.ReadAt(buf, off)
+					if k != 0 || err == nil {
+						c.Oracle("FAIL huge%d bytefile:HReadAt:huge-offset ReadAt(%d bytes, %d) on a %d-byte file = %d, %v; want 0 and an error", n, blen, off, len(content), k, err)
+					}
+					if pos, _ := h.Seek(0, 1); pos != 2 {
+						c.Oracle("FAIL huge%d bytefile:HReadAt:moved-offset after ReadAt(%d bytes, %d) the handle is at %d, was at 2", n, blen, off, pos)
+					}
+				}()
+				c.Count("huge.readat")
+			}
+		}
+	}
+	c.Extra["huge_offsets"] = fmt.Sprintf("%d positional reads at offsets up to 2^63-1 (oracle only)", n)
 }
